@@ -316,5 +316,5 @@ def cases(tier):
     n = _validate_reference()
     cs = [program_case(m, 2 if tier == "quick" else 3) for m in MODES]
     cs[0].bounds["reference_model_validated_on"] = "%d two-operation programs against real local files" % n
-    cs.append(handle_case(3 if tier == "quick" else 4))
+    cs.append(handle_case(3))          # four requests exhaust a 15-minute budget; three already find the append defect
     return cs
